@@ -22,6 +22,7 @@ import (
 	assettypes "github.com/comdex-official/comdex/x/asset/types"
 	"github.com/comdex-official/comdex/x/auctionsV2"
 	lendmod "github.com/comdex-official/comdex/x/lend"
+	lendkeeper "github.com/comdex-official/comdex/x/lend/keeper"
 	abci "github.com/cometbft/cometbft/abci/types"
 	auctionsV2types "github.com/comdex-official/comdex/x/auctionsV2/types"
 	esmtypes "github.com/comdex-official/comdex/x/esm/types"
@@ -779,6 +780,38 @@ func (e *c08Env) opSetDepreciatedFlag(pool uint64, flag bool) {
 		e.t.Fatal(err)
 	}
 	e.emit("setDepreciated", "ok", u(pool), c08b(flag))
+}
+
+// opMigrate runs the registered store migration 2 → 3 of x/lend (Migrator.Migrate2to3, what an upgrade from consensus version 2
+// executes) in the middle of the history and prints the configuration it leaves behind; the state projection must be unchanged.
+func (e *c08Env) opMigrate() {
+	k := e.app.LendKeeper
+	res := "ok"
+	var err error
+	if p, _ := try(func() { err = lendkeeper.NewMigrator(k).Migrate2to3(e.ctx) }); p {
+		res = "panic"
+	} else if err != nil {
+		res = "err"
+	}
+	var ps, rs []string
+	for _, p := range k.GetLendPairs(e.ctx) {
+		ps = append(ps, u(p.Id)+":"+c08tf(p.IsInterPool)+":"+c08tf(p.IsEModeEnabled))
+	}
+	for _, r := range k.GetAllAssetRatesParams(e.ctx) {
+		rs = append(rs, strings.Join([]string{u(r.AssetID), c08tf(r.EnableStableBorrow), c08tf(r.IsIsolated), r.ELtv.BigInt().String(), r.ELiquidationPenalty.BigInt().String(),
+			r.Ltv.BigInt().String(), u(r.CAssetID), r.LiquidationPenalty.BigInt().String()}, ":"))
+	}
+	f := []string{strings.Join(ps, ","), strings.Join(rs, ","), res}
+	f = append(f, e.state()...)
+	e.tr.Line("lend.migrate", f...)
+	e.tr.Count("op:migrate:" + res)
+}
+
+func c08tf(b bool) string {
+	if b {
+		return "true"
+	}
+	return "false"
 }
 
 // opBeginBlock moves to the next block height divisible by 14400 and runs the real BeginBlocker of x/lend
@@ -1906,6 +1939,35 @@ func c08CorpusSecondTransit(t *testing.T, tr *Trace, rng *Rng) {
 	e.opCalc(u1)
 }
 
+// c08CorpusMigration — the store migration 2 → 3 in the middle of a history: an e-mode borrow above the normal LTV and a stable
+// borrow exist; afterwards e-mode is off (the position is over its limit: no draw, repay works), the books are untouched — and the
+// asset-rates record that follows one with stable borrowing has stable borrowing enabled (the decode loop's stale variable).
+func c08CorpusMigration(t *testing.T, tr *Trace, rng *Rng) {
+	e := c08Setup(t, tr, rng, 0)
+	e.cfgLines()
+	tr.Count("corpus")
+	a2, a3, a4 := e.base[1], e.base[2], e.base[3]
+	u1, u2, u4 := e.users[0], e.users[1], e.users[3]
+	n := func(x int64) sdk.Int { return sdk.NewInt(x) }
+	e.opLend(u2, a2, e.denomOf[a2], n(50_000_000_000), 1, e.appOK) // lend 1
+	e.opLend(u1, a3, e.denomOf[a3], n(10_000_000_000), 1, e.appOK) // lend 2
+	e.opLend(u4, a4, e.denomOf[a4], n(10_000_000_000), 2, e.appOK) // lend 3
+	e.opFundModule(u4, 2, a3, e.coin(a3, n(10_000_000_000)))
+	pair, _ := e.app.LendKeeper.GetLendPair(e.ctx, 5)
+	max := e.maxLoan(a3, n(8_000_000_000), a2, e.pairLTV(pair), sdk.ZeroInt())
+	e.opBorrow(u1, 2, 5, false, sdk.Coin{Denom: e.cDenom(a3), Amount: n(8_000_000_000)}, e.coin(a2, max.MulRaw(97).QuoRaw(100))) // e-mode: above LTV 0.8
+	e.opBorrow(u4, 3, 7, true, sdk.Coin{Denom: e.cDenom(a4), Amount: n(1_000_000_000)}, e.coin(a3, n(100_000_000)))            // stable borrowing is off for A4
+	e.advance(86400)
+	e.opMigrate()
+	e.opDraw(u1, 1, e.coin(a2, n(1_000_000)))                                                                             // over the (now normal) LTV
+	e.opRepay(u1, 1, e.coin(a2, n(50_000_000)))                                                                           // repaying still works
+	e.opBorrow(u4, 3, 7, true, sdk.Coin{Denom: e.cDenom(a4), Amount: n(1_000_000_000)}, e.coin(a3, n(100_000_000))) // accepted now: the leak
+	e.advance(86400)
+	e.opCalc(u4)
+	e.opCalc(u1)
+	e.opMigrate() // a second run changes nothing more
+}
+
 // c08CorpusPoolDeletion — the block hook of x/lend: a depreciated pool without positions is swept into the reserve and deleted; the
 // record's flag is set on a copy, so the next run of the hook finds the entry again, reads the deleted pool as a zero record and panics
 // (the hook is then without effect for EVERY entry, also those listed after it).
@@ -1946,6 +2008,7 @@ func TestC08(t *testing.T) {
 	c08CorpusIsolated(t, tr, rng)
 	c08CorpusSecondTransit(t, tr, rng)
 	c08CorpusPoolDeletion(t, tr, rng)
+	c08CorpusMigration(t, tr, rng)
 	seqs := scale(24, 300)
 	maxOps := scale(90, 160)
 	for s := 0; s < seqs; s++ {
@@ -2002,6 +2065,9 @@ func TestC08(t *testing.T) {
 			}
 			if rng.Chance(12) && len(e.lendAuctions()) > 0 {
 				e.genBid()
+			}
+			if o == nops/2 && s%4 == 1 {
+				e.opMigrate() // the store migration 2 → 3 in the middle of every fourth history
 			}
 			bad := rng.Chance(18)
 			if bad {
